@@ -203,7 +203,17 @@ impl Txn {
             .map(|transferred| {
                 self.to_posting_amount(amount_with_sign(transferred, -self.amount.value))
             })
-            .unwrap_or_else(|| self.to_posting_amount(-self.amount.into_borrowed()))
+            .unwrap_or_else(|| {
+                // Without a separate transferred amount, the charges are a part of the amount,
+                // so the counter account only sees the rest.
+                let mut rest = -self.amount.into_borrowed();
+                for chrg in &self.charges {
+                    if chrg.amount.commodity == self.amount.commodity {
+                        rest.value -= chrg.amount.value;
+                    }
+                }
+                self.to_posting_amount(rest)
+            })
     }
 
     pub fn balance(&mut self, balance: OwnedAmount) -> &mut Txn {
